@@ -179,6 +179,8 @@ class Request:
             return outcome[1]  # for "raise": an Exception instance fails the same position
         if ip.delivery == "slowc":
             return self._coro_slow(outcome, "item" + pstr(ipath), False, ipath)
+        if ip.delivery == "settled":
+            return self._settled(outcome)
         return self.ext("item" + pstr(ipath), outcome, kind="item", pos=ipath).fut
 
     def deliver_list(self, item_t, values, path):
@@ -305,10 +307,30 @@ class Request:
             return self.ext(label, outcome, hanging, pos=path).fut
         if delivery == "coro0":
             return self._coro0(outcome, label)
+        if delivery == "settled":
+            if not hanging:
+                return self._settled(outcome)
+            return self.ext(label, outcome, hanging, pos=path).fut
         if delivery == "slowc":
             return self._coro_slow(outcome, label, hanging, path)
         k = 1 if delivery == "coro1" else 2
         return self._coro(outcome, label, k, hanging, path)
+
+    def _settled(self, outcome):
+        """A future that is already settled when the library receives it (a data loader
+        serving from its cache; a task that finished, or failed, earlier)."""
+        fut = self.sim.loop.create_future()
+        self.sim.count("settled_future_delivered")
+        if outcome[0] == "raise":
+            fut.set_exception(outcome[1])
+        elif outcome[0] == "lazy":
+            try:
+                fut.set_result(outcome[1]())
+            except Exception as exc:  # noqa: BLE001
+                fut.set_exception(exc)
+        else:
+            fut.set_result(outcome[1])
+        return fut
 
     async def _coro0(self, outcome, label):
         self.active += 1
@@ -471,9 +493,10 @@ def field_resolver(source, info, **args):
     return info.context.resolve(source, info, args)
 
 
-def attach(schema, type_mode):
+def attach(schema, type_mode, reset_shared=True):
     """Attach resolvers / type resolvers by attribute assignment (fresh schema per run)."""
-    _SHARED["err"] = GraphQLError("shared failure")  # one instance per unit
+    if reset_shared:
+        _SHARED["err"] = GraphQLError("shared failure")  # one instance per unit
     for tname in ("Query", "Mutation", "Subscription") + OBJECTS:
         t = schema.type_map[tname]
         for f in t.fields.values():
